@@ -13,6 +13,11 @@ META = {
   design_ref="DESIGN.md section 3, C03",
   note="Store level only so far (the end-to-end fork-tree part through the real forkable is not built yet in this commit).",
   technique="rapid stateful (history machine) against a reference model"),
+ "C06": dict(
+  text="Metamorphic random testing of the module identifier: on generated valid graphs, one single-field mutation of one module must change exactly the identifiers of that module and of its descendants (harness-computed reachability), and the identity transformations (consistent rename incl. alias prefixes, insertion of unrelated modules/binaries, binary re-indexing) must change none; recomputation, reverse query order and exec.NewOutputModuleGraph must agree.",
+  design_ref="DESIGN.md section 3, C06",
+  note="Three input-related mutation classes that leave the identifier unchanged are recorded findings (known_findings.json) and excluded by signature; update policy and value type are not in the property's list and are not asserted. Alias import is modelled by the rename transformation (prefix 'alias:'), not yet through the manifest reader.",
+  technique="rapid random generation, metamorphic relations over single-field mutations"),
  "C08": dict(
   text="Model-based random testing of get_first/get_last/get_at/has_* (direct and through wasm.Call.Do*) on every key x every ordinal around each operation, and of the block's deltas folded over the pre-block content, for every kind.",
   design_ref="DESIGN.md section 3, C08",
@@ -33,6 +38,11 @@ META = {
   design_ref="DESIGN.md section 3, C11",
   note="The limit is only enforced by ApplyDelta (set/create paths), so the rejection oracle is stated for Flush; Merge itself is only required to keep the accounting exact.",
   technique="rapid stateful (history machine) with size invariant and rejection oracle"),
+ "C14": dict(
+  text="Random constructive generation of module DAGs (every kind, get/deltas store inputs, block filters, params-only and clock-only modules, arbitrary initial blocks), every map tried as output; a validity predicate over the staged layers (each needed module exactly once, strictly after all it reads, homogeneous layers, store layers close stages, unneeded modules absent) and the acceptance/rejection of 'no input at initial block', with a termination watchdog.",
+  design_ref="DESIGN.md section 3, C14",
+  note="'params plus only-later modules' is accepted either way (the statement does not say whether params counts as an existing input).",
+  technique="rapid random generation against a validity predicate"),
  "C18": dict(
   text="Differential round-trip random testing of the hand-written codecs against google.golang.org/protobuf: Map.MarshalFast -> proto.Unmarshal(Array), proto.Marshal(Array) -> Map.UnmarshalFast, fast round trip; every store marshaller reads back what it wrote; VTproto/ProtoingFast bytes decode with proto.Unmarshal and proto.Marshal bytes decode with the VTproto decoder; reported size == sum(len k+len v).",
   design_ref="DESIGN.md section 3, C18",
